@@ -145,3 +145,25 @@ def pipeline_cfg(kinds, *, first_suffix=False, bad=None, overrides=None, suffix_
             c[METHOD_KEY[kind]] = "vp_no_such_method"
         pipe[name] = c
     return {"pipeline": pipe}, names
+
+
+def make_cv(costs, *, dmin, subpix=1, type_measure="min", window_size=1, vm=None, conf=None, row0=0, col0=0,
+            cmax=100, measure="sad") -> xr.Dataset:
+    """A cost-volume dataset shaped like the output of the matching_cost step.
+    costs: (row, col, nd) float array; samples are dmin + k/subpix; conf: (names, (row, col, n) array)."""
+    costs = np.asarray(costs, dtype=np.float32)
+    rows, cols, nd = costs.shape
+    disp = dmin + np.arange(nd) / float(subpix) if subpix != 1 else np.arange(dmin, dmin + nd)
+    cv = xr.Dataset({"cost_volume": (["row", "col", "disp"], costs.copy())},
+                    coords={"row": np.arange(row0, row0 + rows), "col": np.arange(col0, col0 + cols), "disp": disp})
+    cv["validity_mask"] = xr.DataArray(np.zeros((rows, cols), dtype=np.uint16) if vm is None
+                                       else np.asarray(vm).astype(np.uint16).copy(), dims=["row", "col"])
+    if conf is not None:
+        names, arr = conf
+        cv.coords["indicator"] = list(names)
+        cv["confidence_measure"] = xr.DataArray(np.asarray(arr, dtype=np.float32).copy(), dims=["row", "col", "indicator"])
+    cv.attrs.update({"crs": None, "transform": None, "valid_pixels": 0, "no_data_mask": 1, "no_data_img": -9999,
+                     "window_size": window_size, "subpixel": subpix, "band_correl": None,
+                     "offset_row_col": int((window_size - 1) / 2), "measure": measure, "type_measure": type_measure,
+                     "cmax": cmax, "sampling_interval": 1, "col_to_compute": np.arange(col0, col0 + cols)})
+    return cv
